@@ -315,7 +315,9 @@ def check_C14(tier, seed):
         reader_histories(rep, tier, seed + 1000, "c14r_", True, 8, 500)
         reader_histories(rep, tier, seed + 1001, "c14s_", True, 6, 400, scan=3)
         writer_histories(rep, tier, seed + 1000, "c14w_", 4, 300, big=False)
+        roundtrip_runs(rep, seed + 30, "c14rt_", 6, 80, specs=("Trace_Render",))
     else:
+        roundtrip_runs(rep, seed + 30, "c14rt_", 12, 1500, specs=("Trace_Render",))
         reader_histories(rep, tier, seed + 1000, "c14r_", True, 14, 6000, ops=60, maxlen=96)
         reader_histories(rep, tier, seed + 1001, "c14s_", True, 14, 4000, ops=60, maxlen=96, scan=3)
         writer_histories(rep, tier, seed + 1000, "c14w_", 6, 4000, big=False)
@@ -325,7 +327,10 @@ def check_C14(tier, seed):
                        "advance(n)/advance_with_buf(n) for n > buf_len() and with a source that claims more bytes than "
                        "offered, each panic caught and the exposed state compared with the specification afterwards, in a "
                        "build with debug assertions and overflow checks; histories with scanner calls: every fast-path entry "
-                       "(fp hook) must find 8 bytes buffered at its offset")
+                       "(fp hook) must find 8 bytes buffered at its offset; the format writers (which place digits directly into "
+                       "the buffer through buf_write_ptr / advance_unchecked) write generated values through writers of every "
+                       "small capacity, so that every fill level occurs: a panic or a dying driver is a violation, and the bytes "
+                       "must equal Render(value)")
     rep.assumptions += ["memory level (AddressSanitizer/Miri) is not observed: the specification sees indices, lengths and "
                         "exposed content only (DESIGN.md §8)"]
     return rep.finish()
@@ -601,7 +606,8 @@ def check_C09(tier, seed):
     return rep.finish()
 
 
-def roundtrip_runs(rep, seed, prefix, shards, per_shard, release=False):
+def roundtrip_runs(rep, seed, prefix, shards, per_shard, release=False,
+                   specs=("Trace_Contract", "Trace_Render", "Trace_AigerRef", "Trace_Btor2Ref", "Trace_Dimacs")):
     _clean_traces(prefix)
     paths, procs = [], []
     exe = vlib.build_harness(release)
@@ -611,14 +617,24 @@ def roundtrip_runs(rep, seed, prefix, shards, per_shard, release=False):
         procs.append(subprocess.Popen([exe, "roundtrip", "--out", p, "--seed", str(seed), "--first", str(s * per_shard),
                                        "--count", str(per_shard)], cwd=vlib.ROOT, stdout=subprocess.PIPE, stderr=subprocess.PIPE, text=True))
     nruns = 0
-    for pr in procs:
+    dead = []
+    for si, pr in enumerate(procs):
         out, err = pr.communicate(timeout=3000)
+        if pr.returncode < 0 or pr.returncode in DIED:
+            # a writer / parser that brings the driver down (heap corruption, abort) is data
+            rep.violation({"kind": "process-died", "exit": pr.returncode, "object": "roundtrip", "event": "abort", "op": "", "spec": "",
+                           "panic": False, "parser": ""},
+                          {"spec": None, "how_to_replay": "vh roundtrip --seed %d --first %d --count %d" % (seed, si * per_shard, per_shard),
+                           "exit_status": pr.returncode, "stderr_tail": err[-400:]})
+            dead.append(paths[si])
+            continue
         if pr.returncode != 0:
             raise ToolError("vh roundtrip failed (exit %d): %s" % (pr.returncode, err[-1200:]))
         nruns += json.loads(out.strip().splitlines()[-1])["runs"]
+    paths = [p_ for p_ in paths if p_ not in dead]
     states = 0
     nrej = 0
-    for sp in ("Trace_Contract", "Trace_Render", "Trace_AigerRef", "Trace_Btor2Ref", "Trace_Dimacs"):
+    for sp in specs:
         r1 = validate_traces(prefix + sp[6:9], sp, sp + ".cfg", paths, timeout=2400)
         _report_rejects(rep, sp, r1["rejected"], "vh roundtrip --seed %d (run id in reset record); ./check C03 --replay <this file>" % seed)
         states += r1["states"]
